@@ -17,7 +17,7 @@ def main():
         rnd = int(args[1])
         args = args[2:]
     for pid in args:
-        wt = "/tmp/w%s-c%s" % ("tuvwxyz"[rnd - 1], pid[1:])
+        wt = "/tmp/w%s-c%s" % ("tuvwxyzabcdefgh"[rnd - 1], pid[1:])
         src = ("/tmp/seed-out/%s" if rnd == 1 else "/tmp/seed%d/%%s" % rnd) % pid
         env = dict(os.environ, PYTHONPATH=wt)
         for k in (1, 2, 3):
